@@ -56,6 +56,21 @@ func (sf ScrubFields) Unset(path []string, fieldname string) {
 	}
 }
 
+// UnsetForType removes fieldname from provided type on provided path
+func (sf ScrubFields) UnsetForType(path []string, typename, fieldname string) {
+	key := sf.hash(path)
+	if _, ok := sf[key][typename]; !ok {
+		return
+	}
+	sf[key][typename] = lo.Without(sf[key][typename], fieldname)
+	if len(sf[key][typename]) == 0 {
+		delete(sf[key], typename)
+	}
+	if len(sf[key]) == 0 {
+		delete(sf, key)
+	}
+}
+
 func (sf ScrubFields) Get(path []string, typename string) []string {
 	key := sf.hash(path)
 	if sf[key] == nil {
